@@ -483,27 +483,32 @@ inline lib::Payload apiPayload(const PacketRecipe& r, const RecipeFields& f)
     return lib::Payload(lib::PayloadType(static_cast<lib::CmpHeader::MessageType>(r.msgType), r.ptype), ptr(f.data), f.data.size());
 }
 
-inline lib::Packet buildPacket(const PacketRecipe& r, uint8_t version)
+inline lib::Payload buildPayload(const PacketRecipe& r)
 {
     RecipeFields f = deriveFields(r);
-    lib::Packet p;
     if (r.viaApi && r.kind != rkGeneric)
-    {
-        p.setPayload(apiPayload(r, f));
-    }
-    else
-    {
-        Bytes b = oracleBytes(r, f);
-        static const uint8_t dummy = 0;
-        lib::Payload pl(lib::PayloadType(static_cast<lib::CmpHeader::MessageType>(r.messageType()), r.payloadTypeByte()),
+        return apiPayload(r, f);
+    Bytes b = oracleBytes(r, f);
+    static const uint8_t dummy = 0;
+    return lib::Payload(lib::PayloadType(static_cast<lib::CmpHeader::MessageType>(r.messageType()), r.payloadTypeByte()),
                         b.empty() ? &dummy : b.data(), b.size());
-        p.setPayload(pl);
-    }
+}
+
+// fills an existing packet in place (no Packet copy / move involved)
+inline void fillPacket(lib::Packet& p, const PacketRecipe& r, uint8_t version)
+{
+    p.setPayload(buildPayload(r));
     p.setVersion(version);
     p.setTimestamp(r.ts);
     p.setInterfaceId(r.ifId);
     p.setVendorId(r.vendorId);
     p.setCommonFlags(r.flags);
+}
+
+inline lib::Packet buildPacket(const PacketRecipe& r, uint8_t version)
+{
+    lib::Packet p;
+    fillPacket(p, r, version);
     return p;
 }
 
